@@ -203,7 +203,13 @@ class Check(PropertyCheck):
                     if [[x.operation.job_id for x in ms] for ms in s.schedule] != seqs:
                         res.append(("seq-order", f"`{line}`: resulting schedule does not follow the given sequences"))
         elif line == "mark immut":
+            views0 = oracles.dump_views(I)        # fills the instance's caches
             self.exercise(impl)
+            views1 = oracles.dump_views(I)
+            for k in views0:
+                if views0[k] != views1[k]:
+                    res.append(("mutated-view", f"the instance's view `{k}` changed while dispatchers, solvers, observers, "
+                                f"graph builders and environments ran on it: {views0[k]} -> {views1[k]}"))
         if oracles.dump_instance(I) != ctx.get("dump0"):
             res.append(("mutated", f"the instance was modified by `{line}`"))
             ctx["dump0"] = oracles.dump_instance(I)
@@ -221,6 +227,9 @@ class Check(PropertyCheck):
         for rule in ("most_work_remaining", "shortest_processing_time", "first_come_first_served",
                      "most_operations_remaining"):
             DispatchingRuleSolver(rule)(I)
+        if not I.is_flexible:
+            from job_shop_lib.constraint_programming import ORToolsSolver
+            ORToolsSolver().solve(I)
         d = jsl.Dispatcher(I, jsl.filter_dominated_operations)
         obs = [feature_observer_factory(t, dispatcher=d) for t in FeatureObserverType]
         while not d.schedule.is_complete():
